@@ -62,3 +62,27 @@ def newMock {α ρ} (fb : Fallback) (c : ClauseTree α ρ) : Except AsmError (Sh
   | .ok a => .ok ⟨fb, a.mockers, 0, []⟩
 
 end Unimock
+
+namespace Unimock
+
+/-- order in which a tuple of arity `n` deconstructs its fields, according to a table of
+    `Clause for (T1, .., Tn)` impls; arities without an impl do not type-check (modelled as declaration order) -/
+def tupleOrder (table : List (Nat × List Nat)) (n : Nat) : List Nat :=
+  match table.find? (·.1 = n) with
+  | some row => row.2
+  | none => List.range n
+
+/-- `Clause::deconstruct` with the tuple impls taken from `table`: what reaches the sink, in order -/
+def deconstruct {α ρ} (table : List (Nat × List Nat)) : ClauseTree α ρ → List (Except AsmError (Terminal α ρ))
+  | .unit => []
+  | .term t => [.ok t]
+  | .stub info ps => if ps.isEmpty then [.error .emptyStub] else ps.map fun b => .ok ⟨info, b⟩
+  | .tuple cs =>
+    let kids := deconstructList table cs
+    (tupleOrder table kids.length).flatMap fun i => kids[i]?.getD []
+where deconstructList (table : List (Nat × List Nat)) :
+    List (ClauseTree α ρ) → List (List (Except AsmError (Terminal α ρ)))
+  | [] => []
+  | c :: cs => deconstruct table c :: deconstructList table cs
+
+end Unimock
